@@ -157,6 +157,13 @@ def take(res, n, mode):
     if mode == "slice":
         out = res[0:n] if isinstance(res, LazyList) else res[0:n]
         return sandbox.pyval(out, limit=4096)
+    if mode == "getitem":
+        # the item at index n through real indexing (what the index element does)
+        if isinstance(res, LazyList):
+            if not res.has_ind(n):
+                return ("no item",)
+            return sandbox.pyval(res[n])
+        return sandbox.pyval(res[n]) if n < len(res) else ("no item",)
     # item at index n
     if isinstance(res, LazyList):
         if not res.has_ind(n):
@@ -168,6 +175,7 @@ def take(res, n, mode):
 def run_pipeline(names, n, mode, cat):
     """Returns (status, pulls, value). status in ok / budget / raises:<T> / timeout"""
     need = n if mode == "slice" else n + 1
+    fresh_getitem = mode == "getitem"
     bound = compose_bound(names, cat, need)
     budget = 4 * bound + 64
     L, src = infinite(budget)
@@ -177,7 +185,11 @@ def run_pipeline(names, n, mode, cat):
             res = L
             for nm in names:
                 res = cat[nm][0](res, ctx)
-            val = take(res, n, mode)
+            if mode == "getitem" and hasattr(res, "generated"):
+                # index straight into the freshly built result (nothing cached yet), like `n i` does on a copy
+                val = sandbox.pyval(res[n]) if True else None
+            else:
+                val = take(res, n, mode)
         return "ok", src.pulls, val, bound, budget
     except PullBudgetExceeded:
         return "budget", src.pulls, None, bound, budget
@@ -247,10 +259,10 @@ def _shard(args):
     cat = catalogue()
     for names in pipelines:
         if not well_defined(names, cat):
-            part.skip("value-dependent stage after a non-injective one: the prefix need not exist", len(ns) * 2)
+            part.skip("value-dependent stage after a non-injective one: the prefix need not exist", len(ns) * 3)
             continue
         for n in ns:
-            for mode in ("slice", "index"):
+            for mode in ("slice", "index", "getitem"):
                 check(part, names, n, mode, cat)
         part.nontriv()
     return part.data()
